@@ -442,6 +442,46 @@ def expected_value(spec, arrays, oracle, np):
     return ref
 
 
+def path_cost(inputs, output, sizes, path):
+    """flops of a linear path under `sizes`: per pairwise step the product of the sizes of all indices
+    involved (independent of cotengra)"""
+    terms = [tuple(t) for t in inputs]
+    total = 0
+    for step in path:
+        step = sorted(step, reverse=True)
+        picked = [terms.pop(i) for i in step]
+        involved = []
+        for t in picked:
+            for ix in t:
+                if ix not in involved:
+                    involved.append(ix)
+        c = 1
+        for ix in involved:
+            c *= sizes[ix]
+        total += c
+        keep = [ix for ix in involved if ix in output or any(ix in t for t in terms)]
+        terms.append(tuple(keep))
+    return total
+
+
+def best_path_cost(inputs, output, sizes):
+    """brute force over all linear pairwise paths (small n only)"""
+    n = len(inputs)
+    best = [None]
+
+    def rec(m, path):
+        if m == 1:
+            c = path_cost(inputs, output, sizes, path)
+            if best[0] is None or c < best[0]:
+                best[0] = c
+            return
+        for i in range(m):
+            for j in range(i + 1, m):
+                rec(m - 1, path + [(i, j)])
+    rec(n, [])
+    return best[0]
+
+
 def _same_value(a, b, np):
     """the same call with caching on and off: identical integer results, strip_exponent pairs to 1e-9"""
     if isinstance(a, tuple) and a and a[0] == "strip":
@@ -579,6 +619,32 @@ def pools():
         bexp += [[(v, "einsum"), (n, "einsum_expr")], [(l, "expr"), (n, "array_contract")],
                  [(v, "array_contract"), (n, "einsum"), (l, "einsum")]]
     P["backend-mix"] = (bm, ["einsum", "array_contract", "expr", "einsum_expr"], bexp)
+    # the association index -> size: explicit size_dicts that list the same sizes in the same POSITION for
+    # different indices (permuted key order with permuted values), and equal dicts in different key order
+    # (which must be indistinguishable), through every cached entry point that takes a size_dict
+    def _sd(*kv):
+        return tuple(kv)
+    sds = {"s1": _sd(("a", 2), ("b", 9), ("c", 3), ("d", 8)),          # values (2, 9, 3, 8)
+           "s2": _sd(("b", 2), ("a", 9), ("d", 3), ("c", 8)),          # values (2, 9, 3, 8), other binding
+           "s1r": _sd(("d", 8), ("c", 3), ("b", 9), ("a", 2)),         # == s1 as a dict
+           "s2r": _sd(("a", 9), ("b", 2), ("c", 8), ("d", 3)),         # == s2 as a dict; values (9, 2, 8, 3)
+           "s4": _sd(("b", 9), ("a", 2), ("d", 8), ("c", 3))}          # == s1 as a dict; values (9, 2, 8, 3)
+    sb, sbx = [], []
+    for canon in (True, False):
+        for o in ("optimal", "greedy", "auto", ((0, 1), (0, 1))):
+            ix = {}
+            for nm, sd in sds.items():
+                d = dict(sd)
+                ix[nm] = len(sb)
+                sb.append(dict(inputs=B3["inputs"], output=B3["output"], size_dict=sd, optimize=o, canonicalize=canon,
+                               shapes=tuple(tuple(d[i] for i in t) for t in B3["inputs"]), judge_cost=True))
+            for x, y in (("s1", "s2"), ("s2r", "s4"), ("s1", "s1r"), ("s2", "s2r"), ("s1r", "s2r")):
+                for api in ("path", "expr", "tree_struct"):
+                    sbx += [[(ix[x], api), (ix[y], api)], [(ix[y], api), (ix[x], api)]]
+            sbx += [[(ix["s1"], "path"), (ix["s2"], "path"), (ix["s1"], "path")],
+                    [(ix["s1"], "expr"), (ix["s2"], "expr"), (ix["s1r"], "expr")],
+                    [(ix["s2"], "tree_struct"), (ix["s1"], "path"), (ix["s2"], "expr"), (ix["s2"], "path")]]
+    P["size-binding"] = (sb, ["path", "expr", "tree_struct"], sbx)
     P["kwargs-einsum"] = ([dict(eq="ab,bc,cd->ad", shapes=B3["shapes"], kwargs=k) for k in kws],
                           ["einsum", "einsum_expr"])
     P["canonicalize"] = ([var(B2, canonicalize=True), var(B2, canonicalize=False),
@@ -768,6 +834,14 @@ def judge_sequence(ctx, pool, specs, results, oracle, np, where, known_key=None)
                     res["tree_inputs"], res["tree_output"], spec["inputs"], spec["output"])
             if not oracle.path_is_valid_linear(n, p):
                 bad = "returned path %r is not a valid path for %d inputs" % (p, n)
+            elif spec.get("judge_cost"):
+                own = _size_dict_of(spec)
+                res["cost"] = path_cost(spec["inputs"], spec["output"], own, p)
+                if spec.get("optimize") == "optimal":
+                    want_c = best_path_cost(spec["inputs"], spec["output"], own)
+                    if res["cost"] != want_c:
+                        bad = ("optimize='optimal' returned the path %r: cost %d under the request's own sizes %r, "
+                               "the optimum is %d" % (p, res["cost"], own, want_c))
             o = spec.get("optimize", "auto")
             if isinstance(o, (tuple, list)) and o and isinstance(o[0], (tuple, list)):
                 want = tuple(tuple(s) for s in o)
@@ -1456,6 +1530,14 @@ def run(ctx):
                     if pname == "backend-mix" and members[ma].get("backend") != members[mb].get("backend"):
                         ctx.count("feature:backend_switch_on_one_cache_key:%s->%s" % (
                             members[ma]["backend"], members[mb]["backend"]))
+                    if pname == "size-binding" and ma != mb:
+                        va = tuple(v for _, v in members[ma]["size_dict"])
+                        vb = tuple(v for _, v in members[mb]["size_dict"])
+                        same_map = dict(members[ma]["size_dict"]) == dict(members[mb]["size_dict"])
+                        if va == vb and not same_map:
+                            ctx.count("feature:same_size_sequence_different_binding")
+                        if same_map:
+                            ctx.count("feature:equal_size_dicts_different_key_order")
                     if pname == "multichar-labels" and ma != mb and aa == ab:
                         ctx.count("feature:multichar_joined_string_collision_pair")
             else:
@@ -1506,6 +1588,10 @@ def run(ctx):
                 for i, (rc, ru) in enumerate(zip(by_cache[True][1], by_cache[False][1])):
                     differs = (bool(rc.get("exc")) != bool(ru.get("exc")) or rc.get("dtype") != ru.get("dtype")
                                or rc.get("desc") != ru.get("desc"))
+                    if not differs and not rc.get("exc") and "cost" in rc and "cost" in ru \
+                            and rc["cost"] != ru["cost"]:
+                        differs = True
+                        rc["desc"], ru["desc"] = "path cost %d" % rc["cost"], "path cost %d" % ru["cost"]
                     if not differs and not rc.get("exc"):
                         for kk in ("value", "value2", "value3"):
                             if kk in rc and not _same_value(rc[kk], ru.get(kk), np):
